@@ -440,11 +440,15 @@ class Oracle:
             d["sync"] = s["ver"]
         return d["promised"] and not s["tainted"]
 
-    def destructive(self, key, newS):
+    def destructive(self, key, newS, acting=None):
+        """every view of the state loses its must-set, except the acting view which keeps what survives"""
         s = self.states[key]
         s["S"] = set(newS)
         for d in self.views_of(key):
-            d["M"] &= s["S"]
+            if d is acting:
+                d["M"] &= s["S"]
+            else:
+                d["M"] = set()
 
     def bits_of(self, rec, blocks):
         """capacity bits (bytes) of a view as visible in the observation, None if not visible."""
@@ -592,12 +596,20 @@ class Oracle:
                     keep = self.write(v)
                     su = self.states[du["state"]]
                     sv = self.states[d["state"]]
+                    suS = set(su["S"])
+                    if du["state"][0] == "mem":
+                        # the source's recorded items count only if the source view still agrees with the header of its memory
+                        mb = prev[2].get(du["state"][1], b"")
+                        hdr = (struct.unpack_from("<I", mb, 16)[0] * 64 % 2**32, struct.unpack_from("<H", mb, 4)[0],
+                               struct.unpack_from("<Q", mb, 8)[0]) if len(mb) >= 24 else None
+                        if hdr != (ru["cap"], ru["k"], ru["seed"]):
+                            suS = set()
                     if op == "union":
                         if keep:
-                            sv["S"] |= su["S"]
+                            sv["S"] |= suS
                             d["M"] = set(sv["S"])
                     elif op == "inter":
-                        self.destructive(d["state"], sv["S"] & su["S"])
+                        self.destructive(d["state"], sv["S"] & suS, acting=d if keep else None)
                     else:
                         self.destructive(d["state"], set())
         elif op == "copy":
@@ -616,7 +628,8 @@ class Oracle:
             v, m = int(w[1]), int(w[2])
             d = self.views.get(v)
             if d is not None and out == "ok":
-                ok = d["promised"] and not self.st(v)["tainted"]
+                stv = self.st(v)
+                ok = d["promised"] and not stv["tainted"] and (d["state"][0] == "own" or d["sync"] == stv["ver"])
                 self.states[("mem", m)] = dict(S=set(d["M"]) if ok else set(), ver=0, tainted=not ok)
                 if v in vr and m in br and vr[v]["img"] != br[m]:
                     self.fail("serialize-variants-differ", "stream and byte serializations differ", i)
